@@ -745,6 +745,9 @@ func (t *Teamserver) EventListenerError(ListenerName string, Error error) {
 	}
 }
 
+// ClientWriteTimeout bounds a single websocket write to an operator client.
+var ClientWriteTimeout = 10 * time.Second
+
 func (t *Teamserver) SendEvent(id string, pk packager.Package) error {
 	var (
 		buffer bytes.Buffer
@@ -761,6 +764,8 @@ func (t *Teamserver) SendEvent(id string, pk packager.Package) error {
 		client := value.(*Client)
 		client.Mutex.Lock()
 
+		// a peer that stopped reading must not block the (sequential) fan-out forever
+		client.Connection.SetWriteDeadline(time.Now().Add(ClientWriteTimeout))
 		err = client.Connection.WriteMessage(websocket.BinaryMessage, buffer.Bytes())
 		client.Mutex.Unlock()
 		if err != nil {
